@@ -270,7 +270,11 @@ def run_one(spec: dict) -> dict:
         allowed_roots = []
         lexical_target = None
         if method == "GET":
-            path_info = op["path_info"]
+            if "path" in op:
+                # a URL path that spells a file-system path: "/" + absolute path (i.e. a double slash), or relative
+                path_info = op.get("get_prefix", "/") + spell(world, op, cwd, roots_before[0])
+            else:
+                path_info = op["path_info"]
             allowed_roots = [world.p("static")]
             if path_info != "/":
                 lexical_target = os.path.normpath(os.path.join(world.p("static"), path_info.strip("/")))
@@ -555,6 +559,8 @@ def gen_request(g, threaded=False):
     if r < 0.17:
         pi = g.choice(["/", "/index.html", "/js/app.js", "/favicon.ico", "/js", "/../root/a.sql", "/js/../../outside/o.sql", "//etc/hostname", "/./index.html",
                        "/..", "/js/..%2f", "/nonexistent", "/js//app.js", "/" + "/".join(g.choice(SEGS) for _ in range(g.choice([1, 2, 3])))])
+        if g.random() < 0.35:
+            return {"method": "GET", "get_prefix": g.choice(["/", "/", "//", "/./", ""]), "path": gen_path(g, inside_bias=False, any_root=g.random() < 0.5)}
         return {"method": "GET", "path_info": pi}
     if r < 0.22:
         return {"method": g.choice(["OPTIONS", "PUT", "DELETE", "HEAD"]), "route": g.choice(["/script", "/lineage", "/directory", "/nope"])}
